@@ -315,6 +315,16 @@ TickitWindow* tickit_window_new_root2(Tickit *t, TickitTerm *term)
   return ROOT_AS_WINDOW(root);
 }
 
+/* INTERNAL */
+void tickit_window_orphan_root(TickitWindow *win)
+{
+  /* The toplevel instance is being destroyed. A root window the application
+   * holds a reference of its own to lives on without it: it must not defer
+   * work to the instance any more (and has to be flushed explicitly) */
+  if(win->is_root && win->refcount > 1)
+    WINDOW_AS_ROOT(win)->tickit = NULL;
+}
+
 TickitWindow *tickit_window_new_root(TickitTerm *tt)
 {
   return tickit_window_new_root2(NULL, tt);
